@@ -271,6 +271,9 @@ func main() {
 	var saveEff, removeEff, addGuards, writers, saveCallers, removeCallers []string
 	var saveMem, removeMem []string
 	var addLock, ancestorLock, saveLock, removeLock []string
+	consts := map[string]string{}
+	wantConst := map[string]bool{"groupChainPrefix": true, "groupForkDBPrefix": true, "lastGroupKey": true,
+		"groupCountKey": true, "latestGroupHeightKey": true, "groupCommonAncestorHeightKey": true}
 	found := map[string]bool{}
 	for _, f := range files {
 		base := filepath.Base(f)
@@ -283,6 +286,18 @@ func main() {
 			os.Exit(1)
 		}
 		for _, d := range af.Decls {
+			if gd, ok := d.(*ast.GenDecl); ok && gd.Tok == token.CONST {
+				for _, sp := range gd.Specs {
+					vs := sp.(*ast.ValueSpec)
+					for i, nm := range vs.Names {
+						if wantConst[nm.Name] && i < len(vs.Values) {
+							if bl, ok := vs.Values[i].(*ast.BasicLit); ok && bl.Kind == token.STRING {
+								consts[nm.Name] = strings.Trim(bl.Value, "\"`")
+							}
+						}
+					}
+				}
+			}
 			fd, ok := d.(*ast.FuncDecl)
 			if !ok || fd.Body == nil {
 				continue
@@ -389,6 +404,15 @@ func main() {
 	b.WriteString(leanList("removeLockOps", removeLock))
 	b.WriteString("\n" + leanList("saveCallers", saveCallers))
 	b.WriteString("\n" + leanList("removeCallers", removeCallers))
+	b.WriteString("\n/-- Store prefixes and bookkeeping keys of the group chain and of the group fork database. -/\n")
+	for _, k := range []string{"groupChainPrefix", "groupForkDBPrefix", "lastGroupKey", "groupCountKey", "latestGroupHeightKey", "groupCommonAncestorHeightKey"} {
+		v, ok := consts[k]
+		if !ok {
+			fmt.Fprintln(os.Stderr, "c19facts: constant "+k+" not found")
+			os.Exit(1)
+		}
+		b.WriteString("def " + k + " : String := " + leanStr(v) + "\n")
+	}
 	b.WriteString("\nend Rangers.Generated.GroupChainFacts\n")
 	fmt.Print(b.String())
 }
